@@ -10,7 +10,7 @@ RULE = ("K (float32): (a) setup defaults: EnergyThresholdCondition().setup min_s
         "(thorough 4000) vs the model's half-to-even T/10; rejected set-ups (threshold <= 0 / < 0, prev_periods < 1, window "
         "longer than T, min_steps below the window) vs the model's error kinds. (b) per generated tiny scene (4-6 cells per "
         "axis, PML or periodic faces, T 16-30, dipole source, volume-reduced Field or Energy detector): a plain run is "
-        "executed step by step; its energy trace E(0..T) and detector readings are the model's input. For 12 (thorough 60) (threshold, "
+        "executed step by step; its energy trace E(0..T) and detector readings are the model's input. For 12 (thorough 40) (threshold, "
         "min_steps, max_steps) triples per condition kind - thresholds taken from the gaps of the run's own energy / "
         "spectra-distance values so that every halt reason occurs (threshold, min_steps wait, max_steps, T, never), min/max "
         "in {None, 0, random, > T}, max < min - the implementation's own `__call__` is evaluated on every state of the plain "
@@ -153,8 +153,13 @@ def gen_energy_specs(rng, P, n):
     E = P.E
     big = max(abs(x) for x in E) or 1.0
     thr = gap_thresholds(E, 1e-3 * big) or [0.5 * big]
-    specs = [{"type": "energy", "thr": 1e-30, "min": None, "max": None}, {"type": "energy", "thr": 1e30, "min": None, "max": None},
-             {"type": "energy", "thr": 1e30, "min": P.T // 2, "max": P.T // 3}, {"type": "energy", "thr": 1e-30, "min": 2, "max": P.T // 2}]
+    # the first four are always executed through run_fdtd: loop bound T with the condition still saying continue,
+    # max_steps < min_steps, max_steps halt, defaults with an immediately met threshold
+    specs = [{"type": "energy", "thr": 1e30, "min": P.T + 3, "max": P.T + 5},
+             {"type": "energy", "thr": 1e30, "min": P.T // 2, "max": P.T // 3},
+             {"type": "energy", "thr": 1e-30, "min": 2, "max": P.T // 2},
+             {"type": "energy", "thr": 1e30, "min": None, "max": None},
+             {"type": "energy", "thr": 1e-30, "min": None, "max": None}]
     peak = int(np.argmax(E))
     late = gap_thresholds(E[peak:], 1e-3 * big) or thr
     while len(specs) < n:
@@ -173,6 +178,7 @@ def gen_det_specs(rng, P, n):
     # the as-found defect class first: max_steps below T with a threshold that is never met
     m0, p0 = combos[0]
     specs.append({"type": "det", "mult": m0, "p": p0, "thr": 0.0, "min": None, "max": T // 2})
+    specs.append({"type": "det", "mult": m0, "p": p0, "thr": 0.0, "min": None, "max": T + 5})      # only the loop bound halts it
     specs.append({"type": "det", "mult": m0, "p": p0, "thr": 0.0, "min": T // 2 + 3, "max": T // 2})
     specs.append({"type": "det", "mult": m0, "p": p0, "thr": 1e30, "min": None, "max": None})
     while len(specs) < n:
@@ -308,12 +314,12 @@ def k_setup(ctx):
 def run(ctx):
     J()
     k_setup(ctx)
-    n_scenes = ctx.scale(2, 8)
+    n_scenes = ctx.scale(2, 6)
     idx = 0
     for i in range(n_scenes):
         sc = gen_scene(ctx.rng.fork(), i + ctx.seed)
         P = Plain(sc)
-        n_cheap, n_full = ctx.scale(12, 60), ctx.scale(3, 10)
+        n_cheap, n_full = ctx.scale(12, 40), ctx.scale(4, 8)
         k_spec(ctx, P, {"type": "time"}, i == 0, idx)
         for kind, gen in (("energy", gen_energy_specs), ("det", gen_det_specs)):
             specs = gen(ctx.rng, P, n_cheap)
